@@ -134,6 +134,26 @@ def symIndex (dim r : Nat) : List (List Nat) := combosRep (List.range dim) r
 def counterFactorialProd (x : List Nat) : Nat :=
   ((distinctSorted x).map fun v => factorial (positionsOf x v).length).foldl (· * ·) 1
 
+/-- `np.ravel_multi_index(idx, [dim]*len(idx))` -/
+def ravelIndex (dim : Nat) (idx : List Nat) : Nat := idx.foldl (fun acc x => acc * dim + x) 0
+
+/-- `get_antisymmetric_basis(dim, rank)` (`_hierarchy.py:73-85`) in signed-square form: the dense `(C(dim,rank), dim^rank)` array
+**times `√(rank!)`** — row `c` (a combination) has the sign of the permutation `σ` at flat position `ravel(c[σ])`, `0` elsewhere
+(every entry of the implementation is `sign/√(rank!)`, i.e. `entry·|entry|·rank!` is this integer). -/
+def antisymBasisDense (dim r : Nat) : List (List Int) :=
+  (antisymIndex dim r).map fun c =>
+    (List.range (dim ^ r)).map fun t =>
+      match (antisymFactorTableInt r).find? fun pv => ravelIndex dim (pv.1.map fun m => c.getD m 0) == t with
+      | some pv => pv.2
+      | none => 0
+
+/-- `get_symmetric_basis(dim, rank)` (`_hierarchy.py:96-110`) in squared form: row `c` (a combination with replacement) has
+`∏ count! ` (numerator of `factor² = ∏count!/rank!`) at the flat positions `ravel(c[σ])`, `0` elsewhere. -/
+def symBasisDense (dim r : Nat) : List (List Nat) :=
+  (symIndex dim r).map fun c =>
+    (List.range (dim ^ r)).map fun t =>
+      if (antisymFactorTableInt r).any fun pv => ravelIndex dim (pv.1.map fun m => c.getD m 0) == t then counterFactorialProd c else 0
+
 /-! ## 2. polarised minors (`tensor2d_project_to_antisym_basis`) -/
 
 section ring
@@ -237,6 +257,27 @@ def abcVecScaled (dimA dimB dimC : Nat) (T1 T2 : Nat → Nat → Nat → α) : L
   (List.range dimA).flatMap fun a => (List.range dimB).flatMap fun b => (List.range dimC).flatMap fun c =>
     (List.range dimA).flatMap fun a' => (List.range dimB).flatMap fun b' => (List.range dimC).map fun c' =>
       abcEntry dimB dimC T1 T2 a b c a' b' c'
+
+/-- One entry of the vector that `is_ABC_completely_entangled_subspace(np_list, hierarchy_k)` builds for the sorted multi-index `INDEX`
+(length `1 + hierarchy_k`, from `combinations_with_replacement`) (`_hierarchy.py:327-347`), **times 4** and up to the positive factor
+`pvalue[K]·|pindex|/s!` of the symmetric index (as `symPartEntry`):
+`Σ_{(i0,i1) ⊂ positions} (A|BC cut + AB|C cut)(T[INDEX[i0]], T[INDEX[i1]])[a,b,c,a',b',c'] · sym(INDEX without i0,i1)[K]`
+(the Gram matrix `TAlphaBeta` contracts `TAlpha` with `TBeta` over the pairs).  The symmetric factor is
+`project_to_symmetric_basis([x.reshape(-1) …], rest)`: the tensors flattened, i.e. the matrices `matA_BC` with `dimB·dimC` columns;
+`N = len(np_list)` (the `N = 1` shortcut of `project_to_symmetric_basis` applies here as well). -/
+def abcLevelEntry (dimB dimC N : Nat) (T : Nat → Nat → Nat → Nat → α) (INDEX : List Nat) (a b c a' b' c' : Nat) (K : List Nat) : α :=
+  let n := INDEX.length
+  listSum <| (combos (List.range n) 2).map fun sub =>
+    let rest := (List.range n).filter fun x => !sub.contains x
+    let idxS := rest.map fun x => INDEX.getD x 0
+    abcEntry dimB dimC (T (INDEX.getD (sub.getD 0 0) 0)) (T (INDEX.getD (sub.getD 1 0) 0)) a b c a' b' c'
+      * (if rest.isEmpty then 1 else symPartEntry (fun g => matA_BC dimC (T g)) (dimB * dimC) N idxS K)
+
+/-- the whole (scaled) level-`k` vector for one multi-index: `(a,b,c,a',b',c')` row-major, then `K` -/
+def abcLevelVecScaled (dimA dimB dimC N : Nat) (T : Nat → Nat → Nat → Nat → α) (INDEX : List Nat) : List α :=
+  (List.range dimA).flatMap fun a => (List.range dimB).flatMap fun b => (List.range dimC).flatMap fun c =>
+    (List.range dimA).flatMap fun a' => (List.range dimB).flatMap fun b' => (List.range dimC).flatMap fun c' =>
+      (symPartKeys N (dimA * dimB * dimC) (INDEX.length - 2)).map fun K => abcLevelEntry dimB dimC N T INDEX a b c a' b' c' K
 
 /-- the multi-indices of the vector family of `has_rank_hierarchical_method(…, rank, hierarchy_k)`:
 `combinations_with_replacement(range(N), r + k)`, `r = rank-1` (`_hierarchy.py:280`). -/
